@@ -82,6 +82,9 @@ func depthDocs() (pool [][]byte) {
 
 var garbageStack = "5,6,7,99999,0,1"
 
+// a Buffer that an earlier, deeper traversal (Handle*Values have no depth limit) left longer than the limit
+var longStack = strings.TrimSuffix(strings.Repeat("3,", 10050), ",")
+
 // ---- C01 ----
 
 func init() {
@@ -98,8 +101,9 @@ func init() {
 		}
 		for _, d := range depthDocs() {
 			h := hx(d)
-			cases = append(cases, apiCase("depth", "Valid", h, "-"), apiCase("depth:stack", "Valid", h, garbageStack))
+			cases = append(cases, apiCase("depth", "Valid", h, "-"), apiCase("depth:stack", "Valid", h, garbageStack), apiCase("depth:longstack", "Valid", h, longStack))
 			cases = append(cases, specCase("depth:spec", "specValid 10000 "+h, runAPI("Valid", []string{h, garbageStack})))
+			cases = append(cases, specCase("depth:longstack:spec", "specValid 10000 "+h, runAPI("Valid", []string{h, longStack})))
 		}
 		if err := c.Suite.Run(cases); err != nil {
 			return "", err
@@ -145,6 +149,24 @@ func init() {
 			impl := runAPI("SkipValue", []string{h, garbageStack})
 			cases = append(cases, Case{Line: "SkipValue " + h + " " + garbageStack, Impl: impl, Class: "depth"})
 			cases = append(cases, specCase("depth:spec", "specEnd 10000 "+h, okErr(impl, false)))
+			implL := runAPI("SkipValue", []string{h, longStack})
+			cases = append(cases, Case{Line: "SkipValue " + h + " " + longStack, Impl: implL, Class: "depth:longstack"})
+			cases = append(cases, specCase("depth:longstack:spec", "specEnd 10000 "+h, okErr(implL, false)))
+		}
+		// the hand-written number-tail scanners directly: every byte at each position of short tails
+		for _, base := range []string{"", "5", "55", "5e", "5e5", "5e+5", "5E-55", "e5", "e+", "e+5", "+5", "-", "5e5x", "55x", "5.5"} {
+			for pos := 0; pos <= len(base); pos++ {
+				for a := 0; a < 256; a++ {
+					d := []byte("1." + base)
+					if pos < len(base) {
+						d[2+pos] = byte(a)
+					} else {
+						d = append(d, byte(a))
+					}
+					cases = append(cases, apiCase("skipFloatDec", "skipFloatDec", hx(d), "2"), apiCase("skipFloatExp", "skipFloatExp", hx(d), "2"))
+				}
+			}
+			cases = append(cases, apiCase("skipFloatDec", "skipFloatDec", hx([]byte("1."+base)), "2"), apiCase("skipFloatExp", "skipFloatExp", hx([]byte("1e"+base)), "2"))
 		}
 		if err := c.Suite.Run(cases); err != nil {
 			return "", err
@@ -206,6 +228,10 @@ func init() {
 		for _, d := range depthDocs() {
 			pool = append(pool, d)
 			cl = append(cl, "depth")
+			h := hx(d)
+			implL := runAPI("SkipValueFast", []string{h, longStack})
+			cases = append(cases, Case{Line: "SkipValueFast " + h + " " + longStack, Impl: implL, Class: "depth:longstack"})
+			cases = append(cases, specCase("depth:longstack:spec", "specFast 10000 "+h, okErr(implL, false)))
 		}
 		for i, d := range pool {
 			h := hx(d)
